@@ -213,10 +213,29 @@ class _randobj:
     
                                     model.add_field(fo._int_field_info.model)
                     
-                                # Now, elaborate the constraints
+                        # Create the blocks of all dynamic constraints before any
+                        # body is elaborated, such that a body can reference a 
+                        # dynamic constraint that is elaborated after it
+                        dynamic_block_m = {}
                         for f in dir(self):
                             if not f.startswith("__") and not f.startswith("_int"):
                                 fo = getattr(self, f)
+                                if isinstance(fo, dynamic_constraint_t):
+                                    block = ConstraintBlockModel(f)
+                                    block.srcinfo = fo.srcinfo
+                                    block.is_dynamic = True
+                                    model.add_dynamic_constraint(block)
+                                    dynamic_block_m[f] = (fo, block)
+
+                                # Now, elaborate the constraints
+                        for f in dir(self):
+                            if not f.startswith("__") and not f.startswith("_int"):
+                                if f in dynamic_block_m.keys():
+                                    # From here on, the attribute reads as a 
+                                    # reference to this instance's block
+                                    fo = dynamic_block_m[f][0]
+                                else:
+                                    fo = getattr(self, f)
                                 if isinstance(fo, constraint_t):
                                     clear_exprs()
                                     block = ConstraintBlockModel(f)
@@ -235,8 +254,7 @@ class _randobj:
                                     clear_exprs()
                                 elif isinstance(fo, dynamic_constraint_t):
                                     clear_exprs()
-                                    block = ConstraintBlockModel(f)
-                                    block.srcinfo = fo.srcinfo
+                                    block = dynamic_block_m[f][1]
                                     push_constraint_scope(block)
                                     try:
                                         fo.c(self)
@@ -247,8 +265,6 @@ class _randobj:
                                         clear_exprs()
                                         raise e
                                     fo.set_model(pop_constraint_scope())
-                                    fo.model.is_dynamic = True
-                                    model.add_dynamic_constraint(fo.model)
                                     clear_exprs()
     
                 self._int_field_info.model.name = name
